@@ -12,6 +12,14 @@ Driver ops for the function-call protocol (C10).
   impl   := (ok val) | err | panic
   args   := ( val* )        types := ( ty* )
 
+  fn.proxy  … as fn.call                                -- Function.Proxy()(args...)
+  fn.redesc <params> <var> <refine> <tf> <impl> <args> <n>   -- WithNewDescriptions(_, n descriptions).Call(args)
+  fn.params <params> <var>                              -- Params() / VarParam(): `<params> <var>` echoed
+
+Every value the harness sends is checked for `Payload.markerWF` (the representation
+invariant `C10.ArgsWF` of the theorems); a violation is answered `marker-wf-violation`,
+which the harness reports as a correspondence mismatch.
+
 Answer: `<outcome> | <event>*` with outcome `ok <val|ty>` | `argerr <i>` | `err`
 (plain error) | `cberr` (the callback's own error) | `panicerr` (PanicError) |
 `panic` (a Go panic escaping the call), and events `(type <args>)`,
@@ -134,6 +142,24 @@ def refineUnmodelled (r : Option (Value → Res Payload)) (pre : Out Value × Li
        | _ => false)
   | _, _ => false
 
+def encFlag (b : Bool) : String := if b then "1" else "0"
+
+def paramStr (p : Param) : String :=
+  "(" ++ tyStr p.ty ++ " " ++ encFlag p.allowNull ++ " " ++ encFlag p.allowUnknown ++ " " ++
+    encFlag p.allowDynamic ++ " " ++ encFlag p.allowMarked ++ ")"
+
+def allMarkerWF (vs : List Value) : Bool := vs.all fun v => v.v.markerWF
+
+/-- `fn.call` / `fn.proxy` / `fn.redesc` after decoding -/
+def runCall (spec : Spec) (rf : Option (Value → Res Payload)) (tf : TypeFn) (impl : ImplFn)
+    (as : List Value) (entry : Spec → TypeFn → ImplFn → List Value → Out Value × List Event) : String :=
+  let dynShort := match (returnTypeForValues spec tf as).1 with
+    | .ok (_, d) => d
+    | _ => false
+  if !allMarkerWF as then "marker-wf-violation"
+  else if refineUnmodelled rf (callUnrefined spec tf impl as) dynShort then "unmodelled"
+  else answer valStr (entry spec tf impl as)
+
 end HFunc
 
 open HFunc in
@@ -147,11 +173,36 @@ def handleFunc : Handler := fun op args =>
     let impl ← decImpl impl
     let as ← as.mapM Value.ofSexp
     let spec : Spec := { params := ps, varParam := var, refine := rf.map toRefineFn }
-    let dynShort := match (returnTypeForValues spec tf as).1 with
-      | .ok (_, d) => d
-      | _ => false
-    if refineUnmodelled rf (callUnrefined spec tf impl as) dynShort then pure "unmodelled"
-    else pure (answer valStr (call spec tf impl as))
+    pure (runCall spec rf tf impl as call)
+  | "fn.proxy", [.list ps, var, rf, tf, impl, .list as] => do
+    let ps ← ps.mapM decParam
+    let var ← decVar var
+    let rf ← decRefine rf
+    let tf ← decTf tf
+    let impl ← decImpl impl
+    let as ← as.mapM Value.ofSexp
+    let spec : Spec := { params := ps, varParam := var, refine := rf.map toRefineFn }
+    pure (runCall spec rf tf impl as proxy)
+  | "fn.redesc", [.list ps, var, rf, tf, impl, .list as, n] => do
+    let ps ← ps.mapM decParam
+    let var ← decVar var
+    let rf ← decRefine rf
+    let tf ← decTf tf
+    let impl ← decImpl impl
+    let as ← as.mapM Value.ofSexp
+    let n ← Sexp.decNat n
+    let spec : Spec := { params := ps, varParam := var, refine := rf.map toRefineFn }
+    match spec.withNewDescriptions n with
+    | .ok spec' => pure (runCall spec' rf tf impl as call)
+    | _ => pure "panic |"
+  | "fn.params", [.list ps, var] => do
+    let ps ← ps.mapM decParam
+    let var ← decVar var
+    let spec : Spec := { params := ps, varParam := var }
+    pure ("(" ++ " ".intercalate (spec.params.map paramStr) ++ ") " ++
+      (match spec.varParam with
+       | some p => paramStr p
+       | none => "-"))
   | "fn.rtfv", [.list ps, var, rf, tf, .list as] => do
     let ps ← ps.mapM decParam
     let var ← decVar var
@@ -159,7 +210,8 @@ def handleFunc : Handler := fun op args =>
     let tf ← decTf tf
     let as ← as.mapM Value.ofSexp
     let spec : Spec := { params := ps, varParam := var, refine := rf.map toRefineFn }
-    pure (answer tyStr (returnTypeForValuesPub spec tf as))
+    if !allMarkerWF as then pure "marker-wf-violation"
+    else pure (answer tyStr (returnTypeForValuesPub spec tf as))
   | "fn.rt", [.list ps, var, rf, tf, .list ts] => do
     let ps ← ps.mapM decParam
     let var ← decVar var
